@@ -210,6 +210,9 @@ PROFILES = [
      [row(['*', num(2), var('x')], '<=', num(6)), row(['neg', var('x')], '<=', num(2)),
       row(['+', var('x'), var('y')], '<=', num(5))]),
     ('unbounded', D('Real', '-inf', 'inf'), D('NNReal', 0, 'inf'), []),
+    # both sign-known non-positive: sign-known abs shortcuts and operand pruning on the negative side
+    ('negative', D('Real', -3, 0), D('Real', -4, -1), []),
+    ('neg-int', D('Int', -4, -1), D('Real', -2, 0), []),
 ]
 
 
